@@ -47,11 +47,11 @@ def effect_signatures(b):
 def debug_only_effects(dbg, rel):
     """[(body, key, verdict, msg)] over every function present in both configurations"""
     out = []
-    relmap = {b.key: b for b in rel.bodies}
+    relmap = {b.path: b for b in rel.bodies}
     for b in dbg.bodies:
         if b.kind not in ("Fn", "AssocFn", "Closure"):
             continue
-        r = relmap.get(b.key)
+        r = relmap.get(b.path)
         if r is None:
             continue
         sd, sr = effect_signatures(b), effect_signatures(r)
